@@ -66,7 +66,16 @@ class ModuleIndex:
     def find(self, qualname):
         if "." in qualname:
             cls, name = qualname.rsplit(".", 1)
-            return self.methods.get((cls, name)) or self.methods.get((cls.split(".")[-1], name))
+            m = self.methods.get((cls, name)) or self.methods.get((cls.split(".")[-1], name))
+            if m is not None:
+                return m
+            # a function nested in a function or method: outer.inner
+            outer = self.find(cls) if cls in self.functions or "." in cls else self.functions.get(cls)
+            if outer is not None:
+                for n in ast.walk(outer):
+                    if isinstance(n, (ast.FunctionDef, ast.AsyncFunctionDef)) and n.name == name and n is not outer:
+                        return n
+            return None
         return self.functions.get(qualname)
 
     def segment(self, node):
